@@ -341,7 +341,16 @@ theorem fail_open_cell (c : CryptoOps) (kv : KeyView) (s : ColSetting) (b rnd : 
 /-- **Fail-open, stated as what the code does (2): a failed rewrite forwards the statement as received.** When
 the transformer fails on ANY protected cell of an INSERT / UPDATE, `OnQuery` returns the error, `handleQueryPacket`
 only logs it and the statement goes to the database exactly as the client sent it – every protected literal in
-it, also those the transformer had handled before the failing one, in clear. -/
+it, also those the transformer had handled before the failing one, in clear.
+
+The property's statement has no exception for this, so the inputs on which it happens on the unchanged tree –
+confirmed through the real proxy, regression witnesses `corpusFailOpen` – are KNOWN FINDINGS, each with its own
+decidable class: `plaintext-at-database:invalid-hex-literal` (the coder's error: `\x` + invalid hex as literal or
+text parameter, `lit_value_total`), `plaintext-at-database:no-key-for-client` (the chain fails: no usable key),
+and – statements the analysis never reaches, so no transformer runs at all –
+`plaintext-at-database:multi-statement-query` (only the first statement of a simple Query is analysed) and
+`plaintext-at-database:non-utf8-statement` (pg_query cannot read the text). A failing random source and syntax
+newer than the embedded grammar stay documented assumptions (not reproduced as sessions). -/
 theorem fail_open_statement {σ} (f : Xf σ) (sch : Schema) (st : σ) :
     (∀ i, xfInsertStmt f sch i st = none → xfStmt f sch (.insert i) st = (.insert i, st)) ∧
     (∀ u, xfUpdateStmt f sch u st = none → xfStmt f sch (.update u) st = (.update u, st)) := by
